@@ -170,12 +170,16 @@ def check(ctx):
         # schedules: exclusion probes (counterexample of AllocConc with UseLock = FALSE) and stress
         t = os.path.join(wd, "probe.ndjson")
         core.run_harness(h, ["alloc", "-mode", "probe", "-out", t], wd)
-        runner.run_job(ctx, _job(ctx, "probe", t, _rerun(["-mode", "probe"]), inv=()))
+        pj = _job(ctx, "probe", t, _rerun(["-mode", "probe"]), inv=())
+        runner.run_job(ctx, pj)
+        runner.run_disc(ctx, pj)
         rounds = 8 if ctx.quick else 60
         t = os.path.join(wd, "conc.ndjson")
         args = ["-mode", "conc", "-rounds", rounds, "-seed", ctx.seed]
         core.run_harness(h, ["alloc"] + args + ["-out", t], wd)
-        runner.run_job(ctx, _job(ctx, "conc", t, _rerun(args), inv=(), attempts=6))
+        cj = _job(ctx, "conc", t, _rerun(args), inv=(), attempts=6)
+        runner.run_job(ctx, cj)
+        runner.run_disc(ctx, cj)
         conc = {"concurrent_rounds_16_goroutines": rounds, "exclusion_probes": 4}
     st.update(conc)
     st["binding_selftest"] = selftest(ctx, paths[0]) if not ctx.violations else {"skipped": "violations reported"}
